@@ -285,10 +285,15 @@ class Check:
 
 
 def known_findings() -> dict:
-    f = ROOT / "known_findings.json"
-    if f.exists():
-        return json.loads(f.read_text())
-    return {"findings": [], "fixed": []}
+    """known_findings.json (+ per-property fragments findings/Cxx.json while a property is being built)."""
+    res: Dict[str, list] = {"findings": [], "fixed": []}
+    files = [ROOT / "known_findings.json", *sorted((ROOT / "findings").glob("*.json"))]
+    for f in files:
+        if f.exists():
+            d = json.loads(f.read_text())
+            res["findings"] += d.get("findings", [])
+            res["fixed"] += d.get("fixed", [])
+    return res
 
 
 def jsonable(x: Any) -> Any:
@@ -325,15 +330,31 @@ def main(check: Check, argv: Optional[List[str]] = None) -> int:
         return 2
 
 
+def _impl_one(args):
+    check, c = args
+    try:
+        return check.run_impl(c)
+    except Exception:
+        return {"harness_error": traceback.format_exc()[-1500:]}
+
+
+def _run_impl_all(check: Check, cases: List[dict]) -> List[Any]:
+    """Runs the implementation on every case; in worker processes when the check asks for it."""
+    workers = getattr(check, "workers", 1)
+    if workers > 1 and len(cases) >= 4 * workers:
+        import multiprocessing as mp
+
+        with mp.get_context("fork").Pool(workers) as pool:
+            return pool.map(_impl_one, [(check, c) for c in cases], chunksize=max(1, len(cases) // (8 * workers)))
+    return [_impl_one((check, c)) for c in cases]
+
+
 def _eval_cases(check: Check, cases: List[dict], with_model: bool, stats: dict):
     """Runs implementation, model, compare, oracle on cases.  Returns (disagreements, violations)."""
     impls: List[Any] = []
     reqs: List[List[str]] = []
-    for c in cases:
-        try:
-            out = check.run_impl(c)
-        except Exception:
-            out = {"harness_error": traceback.format_exc()[-1500:]}
+    raw = _run_impl_all(check, cases)
+    for c, out in zip(cases, raw):
         impls.append(out)
         r: List[str] = []
         if with_model and not (isinstance(out, dict) and "harness_error" in out):
@@ -400,7 +421,7 @@ def _run(check: Check, tier: str, seed: int, replay: Optional[str], t0: float) -
         red.append("translator cbv/gen_tables.py could not read the source tables: " + info[-600:])
 
     modules = [check.props_module, *check.extra_modules]
-    built, out = build(modules)
+    built, out = build([*modules, "CBV.Model.All"])
     detail["build_ok"] = built
     if not built:
         errs = re.findall(r"^error: (.*)$", out, re.M)[:8]
